@@ -1,0 +1,78 @@
+//go:build verif
+
+package decoder
+
+import "github.com/makiuchi-d/gozxing"
+
+// Verification hooks (build tag `verif` only) for the /verif correspondence harness (property C08):
+// white-box access to the unexported low-level decoder stages.  No behaviour change.
+
+// VerifVersion is a flat copy of one entry of `versions`.
+type VerifVersion struct {
+	Number, Rows, Cols, RegionRows, RegionCols, ECCodewords, TotalCodewords int
+	Blocks                                                                  [][2]int // {count, dataCodewords}
+}
+
+func verifFlat(v *Version) VerifVersion {
+	r := VerifVersion{v.versionNumber, v.symbolSizeRows, v.symbolSizeColumns,
+		v.dataRegionSizeRows, v.dataRegionSizeColumns, v.ecBlocks.ecCodewords, v.totalCodewords, nil}
+	for _, b := range v.ecBlocks.ecBlocks {
+		r.Blocks = append(r.Blocks, [2]int{b.count, b.dataCodewords})
+	}
+	return r
+}
+
+func VerifVersions() []VerifVersion {
+	var out []VerifVersion
+	for _, v := range versions {
+		out = append(out, verifFlat(v))
+	}
+	return out
+}
+
+func VerifVersionForDimensions(rows, cols int) (VerifVersion, error) {
+	v, e := getVersionForDimensions(rows, cols)
+	if e != nil {
+		return VerifVersion{}, e
+	}
+	return verifFlat(v), nil
+}
+
+// VerifExtractDataRegion runs NewBitMatrixParser's front half: readVersion + extractDataRegion.
+func VerifExtractDataRegion(bits *gozxing.BitMatrix) (*gozxing.BitMatrix, error) {
+	p, e := NewBitMatrixParser(bits)
+	if e != nil {
+		return nil, e
+	}
+	return p.mappingBitMatrix, nil
+}
+
+// VerifReadCodewords = NewBitMatrixParser(bits).readCodewords()
+func VerifReadCodewords(bits *gozxing.BitMatrix) ([]byte, error) {
+	p, e := NewBitMatrixParser(bits)
+	if e != nil {
+		return nil, e
+	}
+	return p.readCodewords()
+}
+
+// VerifGetDataBlocks = DataBlocks_getDataBlocks on the version with the given dimensions.
+func VerifGetDataBlocks(raw []byte, rows, cols int) (numData []int, blocks [][]byte, err error) {
+	v, e := getVersionForDimensions(rows, cols)
+	if e != nil {
+		return nil, nil, e
+	}
+	dbs, e := DataBlocks_getDataBlocks(raw, v)
+	if e != nil {
+		return nil, nil, e
+	}
+	for _, db := range dbs {
+		numData = append(numData, db.numDataCodewords)
+		blocks = append(blocks, db.codewords)
+	}
+	return numData, blocks, nil
+}
+
+func VerifUnrandomize255State(randomizedBase256Codeword, base256CodewordPosition int) int {
+	return unrandomize255State(randomizedBase256Codeword, base256CodewordPosition)
+}
